@@ -14,6 +14,34 @@ import (
 	"github.com/cloudflare/pat-go/util"
 )
 
+// Scribble makes every Create wrapper behave like a caller that reuses its buffers: the
+// byte-slice arguments are private copies, and after the library call has returned they are
+// overwritten. A library that keeps a reference to caller memory instead of copying what it
+// needs then produces results that depend on what the caller does later.
+var Scribble = true
+
+type argCopies struct{ bufs [][]byte }
+
+func (a *argCopies) c(b []byte) []byte {
+	if b == nil {
+		return nil
+	}
+	o := append(make([]byte, 0, len(b)+8), b...) // spare capacity: appends by the callee land in our buffer
+	a.bufs = append(a.bufs, o[:len(b)+8])
+	return o
+}
+
+func (a *argCopies) done() {
+	if !Scribble {
+		return
+	}
+	for _, b := range a.bufs {
+		for i := range b {
+			b[i] = 0xEE
+		}
+	}
+}
+
 // StageErr names the protocol step at which an honest flow failed.
 type StageErr struct {
 	Stage string
@@ -76,10 +104,12 @@ func (w *W1) ClientPub() *oprf.PublicKey {
 // Create makes a request state; blind nil = client randomness.
 func (w *W1) Create(challenge, nonce, blind []byte) (type1.BasicPrivateTokenRequestState, error) {
 	c := type1.NewBasicPrivateClient()
+	var a argCopies
+	defer a.done()
 	if blind != nil {
-		return c.CreateTokenRequestWithBlind(challenge, nonce, w.KeyID, w.ClientPub(), blind)
+		return c.CreateTokenRequestWithBlind(a.c(challenge), a.c(nonce), a.c(w.KeyID), w.ClientPub(), a.c(blind))
 	}
-	return c.CreateTokenRequest(challenge, nonce, w.KeyID, w.ClientPub())
+	return c.CreateTokenRequest(a.c(challenge), a.c(nonce), a.c(w.KeyID), w.ClientPub())
 }
 
 // EvaluateWire decodes request bytes into a fresh object and evaluates it.
@@ -144,10 +174,12 @@ func (w *W2) ClientPub() *rsa.PublicKey {
 
 func (w *W2) Create(challenge, nonce, blind, salt []byte) (type2.BasicPublicTokenRequestState, error) {
 	c := type2.NewBasicPublicClient()
+	var a argCopies
+	defer a.done()
 	if blind != nil {
-		return c.CreateTokenRequestWithBlind(challenge, nonce, w.KeyID, w.ClientPub(), blind, salt)
+		return c.CreateTokenRequestWithBlind(a.c(challenge), a.c(nonce), a.c(w.KeyID), w.ClientPub(), a.c(blind), a.c(salt))
 	}
-	return c.CreateTokenRequest(challenge, nonce, w.KeyID, w.ClientPub())
+	return c.CreateTokenRequest(a.c(challenge), a.c(nonce), a.c(w.KeyID), w.ClientPub())
 }
 
 func (w *W2) EvaluateWire(reqBytes []byte) ([]byte, *StageErr) {
@@ -212,10 +244,22 @@ func (w *W5) ClientPub() *oprf.PublicKey {
 
 func (w *W5) Create(challenge []byte, nonces [][]byte, blinds [][]byte) (type5.BatchedPrivateTokenRequestState, error) {
 	c := type5.NewBatchedPrivateClient()
-	if blinds != nil {
-		return c.CreateTokenRequestWithBlinds(challenge, nonces, w.KeyID, w.ClientPub(), blinds)
+	var a argCopies
+	defer a.done()
+	cl := func(l [][]byte) [][]byte {
+		if l == nil {
+			return nil
+		}
+		o := make([][]byte, len(l))
+		for i := range l {
+			o[i] = a.c(l[i])
+		}
+		return o
 	}
-	return c.CreateTokenRequest(challenge, nonces, w.KeyID, w.ClientPub())
+	if blinds != nil {
+		return c.CreateTokenRequestWithBlinds(a.c(challenge), cl(nonces), a.c(w.KeyID), w.ClientPub(), cl(blinds))
+	}
+	return c.CreateTokenRequest(a.c(challenge), cl(nonces), a.c(w.KeyID), w.ClientPub())
 }
 
 func (w *W5) EvaluateWire(reqBytes []byte) ([]byte, *StageErr) {
@@ -315,8 +359,10 @@ func (w *W3) Create(a T3Args) (type3.RateLimitedTokenRequestState, error) {
 	if err != nil {
 		return type3.RateLimitedTokenRequestState{}, err
 	}
-	c := type3.NewRateLimitedClientFromSecret(a.Secret)
-	return c.CreateTokenRequest(a.Challenge, a.Nonce, a.Blind, w.KeyID, w.ClientPub(), a.Origin, nk)
+	var ac argCopies
+	defer ac.done()
+	c := type3.NewRateLimitedClientFromSecret(ac.c(a.Secret))
+	return c.CreateTokenRequest(ac.c(a.Challenge), ac.c(a.Nonce), ac.c(a.Blind), ac.c(w.KeyID), w.ClientPub(), a.Origin, nk)
 }
 
 // Flow runs client -> attester -> issuer -> attester -> client with every message as bytes.
